@@ -194,6 +194,12 @@ func xtalkScenario(p xParams) func() {
 			if !c.Returned {
 				fail("C05/call-stuck", classOf(c.Kind), "%s: call t%d (%s) has not returned although every node answered (hist %s)", name, c.Tok, c.Kind, hist)
 			}
+			if strings.HasPrefix(c.Kind, "QuorumCall") {
+				// C02 for a quorum call among concurrent calls: every targeted node has answered, so it is over
+				if done, _ := callDone(c); !done {
+					fail("C02/return-iff", classOf(c.Kind)+" among concurrent calls", "%s: every node targeted by call t%d (%s) has answered (quorum or exhaustion) and other calls share the nodes, but the call has not completed (hist %s)", name, c.Tok, c.Kind, hist)
+				}
+			}
 		}
 	}
 }
